@@ -60,12 +60,20 @@ class _Days(Stub):
     to_list = tolist
 
 
+SHIFT = {"autumn": 3600.0, "spring": -3600.0, "wall": 0.0}
+
+
 class _IdxDiff(Stub):
-    def __init__(self, d):
-        self.days = _Days(d)
+    """Difference of consecutive read dates.  Read dates are local midnights: a period of d calendar days that contains the autumn clock change
+    lasts d days and one hour (`.days` = d), one that contains the spring change d days less one hour (`.days` = d - 1); differences of
+    wall-clock (tz-naive) stamps are exactly d days."""
+
+    def __init__(self, d, span="autumn"):
+        self.d, self.span = d, span
+        self.days = _Days(d - 1 if span == "spring" else d)
 
     def total_seconds(self):
-        return _Days(self.days.d * 86400.0 + 3600.0)   # read dates are local midnights: the generic period spans the autumn clock change (d days and one hour)
+        return _Days(self.d * 86400.0 + SHIFT[self.span])
 
     def __truediv__(self, o):
         raise Unsupported("division of index differences (use .days or total_seconds())")
@@ -74,15 +82,29 @@ class _IdxDiff(Stub):
 class _BIdx(Idx):
     """Index of billing read dates: consecutive differences are the period lengths (d days on the generic row)."""
 
-    def __init__(self, present, d):
+    def __init__(self, present, d, span="autumn"):
         super().__init__(present)
-        self.d = d
+        self.d, self.span = d, span
 
     def __getitem__(self, k):
         if isinstance(k, slice):
             return _BSlice(self, k)
         r = super().__getitem__(k)
-        return _BIdx(r.present, self.d)
+        return _BIdx(r.present, self.d, self.span)
+
+    # wall-clock views of the read dates: differences are whole calendar days
+    def tz_localize(self, tz=None, *a, **k):
+        if tz is not None:
+            raise Unsupported("tz_localize(<zone>) on the read dates")
+        return _BIdx(self.present, self.d, "wall")
+
+    def normalize(self):
+        return _BIdx(self.present, self.d, self.span)
+
+    @property
+    def tz(self):
+        from engine.absint import Opaque
+        return Opaque("tz")
 
 
 class _BSlice(Stub):
@@ -91,18 +113,21 @@ class _BSlice(Stub):
 
     def __sub__(self, o):
         if isinstance(o, _BSlice) and (self.sl.start, self.sl.stop) == (1, None) and (o.sl.start, o.sl.stop) == (None, -1):
-            return _IdxDiff(self.idx.d)          # index[1:] - index[:-1]: forward differences
+            if self.idx.span != o.idx.span:
+                raise Unsupported("difference of read dates in different clocks")
+            return _IdxDiff(self.idx.d, self.idx.span)          # index[1:] - index[:-1]: forward differences
         raise Unsupported("index slice arithmetic other than index[1:] - index[:-1]")
 
 
 class _BFrame(RowFrame):
-    def __init__(self, cols, present=True, d=30):
+    def __init__(self, cols, present=True, d=30, span="autumn"):
         super().__init__(cols, present)
         self.__dict__["_d"] = d
+        self.__dict__["_span"] = span
 
     @property
     def index(self):
-        return _BIdx(self._present, self.__dict__["_d"])
+        return _BIdx(self._present, self.__dict__["_d"], self.__dict__["_span"])
 
     @property
     def empty(self):
@@ -110,15 +135,15 @@ class _BFrame(RowFrame):
 
     def _wrap(self, fr):
         if isinstance(fr, RowFrame) and not isinstance(fr, _BFrame):
-            return _BFrame(fr._cols, fr._present, self.__dict__["_d"])
+            return _BFrame(fr._cols, fr._present, self.__dict__["_d"], self.__dict__["_span"])
         return fr
 
     def __getitem__(self, k):
         if isinstance(k, slice):
             if (k.start, k.stop, k.step) == (None, 0, None):
-                return _BFrame(self._cols, False, self.__dict__["_d"])      # data[:0]: the empty frame
+                return _BFrame(self._cols, False, self.__dict__["_d"], self.__dict__["_span"])      # data[:0]: the empty frame
             if (k.start, k.stop, k.step) == (None, -1, None):
-                return _BFrame(self._cols, self._present, self.__dict__["_d"])   # all but the open last period: the generic row is interior
+                return _BFrame(self._cols, self._present, self.__dict__["_d"], self.__dict__["_span"])   # all but the open last period: the generic row is interior
             raise Unsupported("frame slice other than [:0] / [:-1]")
         return self._wrap(super().__getitem__(k))
 
@@ -151,28 +176,28 @@ class _PD(PDRow):
 def outcomes(chk) -> List[Dict[str, Any]]:
     fi = chk.repo.func(DPU, "clean_billing_data")
     out = []
-    for iv in ("billing_monthly", "billing_bimonthly"):
-        for d in DAYS:
+    for iv, span, d in [(iv_, sp_, d_) for iv_ in ("billing_monthly", "billing_bimonthly") for sp_ in ("autumn", "spring") for d_ in DAYS]:
+        if True:
             warned: List[Any] = []
             it = Interp(step_limit=50_000)
             env = ModuleEnv(chk.repo, fi.module, it, {"np": NPRow(), "numpy": NPRow(), "pd": _PD(), "pandas": _PD(),
                                                       "EEMeterWarning": StubCall(lambda **k: k.get("qualified_name")),
                                                       # trusted summary (its definition is decided by C10 R10.6): elapsed time to the next read in days, a float
-                                                      "day_counts": StubCall(lambda ix, *a, **k: Ser((ix.d * 86400.0 + 3600.0) / 86400.0 if getattr(ix, "present", True) else ABSENT)
+                                                      "day_counts": StubCall(lambda ix, *a, **k: Ser((ix.d * 86400.0 + SHIFT[ix.span]) / 86400.0 if getattr(ix, "present", True) else ABSENT)
                                                       if isinstance(ix, _BIdx) else (_ for _ in ()).throw(Unsupported("day_counts of something that is not the frame's index")))})
             try:
-                res = Function(fi.node, env, it)(_BFrame({"value": VALUE}, True, d), iv, warned)
+                res = Function(fi.node, env, it)(_BFrame({"value": VALUE}, True, d, span), iv, warned)
             except InterpRaised as e:
-                out.append({"interval": iv, "days": d, "raises": e.exc_name})
+                out.append({"interval": iv, "days": d, "span": span, "raises": e.exc_name})
                 continue
             except Unsupported as e:
                 raise AnalysisError(f"{fi.key}: uses an operation outside the one-row abstraction: {e}")
             if isinstance(res, Ser):
                 res = RowFrame({"value": res.v if res.v is not ABSENT else float("nan")}, res.v is not ABSENT)
             if not isinstance(res, RowFrame):
-                out.append({"interval": iv, "days": d, "returns": repr(res)[:60]})
+                out.append({"interval": iv, "days": d, "span": span, "returns": repr(res)[:60]})
                 continue
             ds = res.describe()
             v = ds["values"].get("value")
-            out.append({"interval": iv, "days": d, "present": ds["present"], "kept": bool(ds["present"] and v == VALUE), "value": v, "warned": list(warned)})
+            out.append({"interval": iv, "days": d, "span": span, "present": ds["present"], "kept": bool(ds["present"] and v == VALUE), "value": v, "warned": list(warned)})
     return out
